@@ -154,7 +154,7 @@ def rlp_random_tree(rnd, depth, big):
         pool = [0, 1, 127, 128, 129, 183, 184, 191, 192, 193, 247, 248, 255]
         return [rnd.choice(pool) if rnd.random() < 0.5 else rnd.randrange(256) for _ in range(n)]
     if depth == 0 or rnd.random() < 0.45:
-        n = rnd.choice([0, 1, 1, 1, 2, 3, 5, 54, 55, 56, 57, 60] + ([200, 255, 256, 257, 1000] if big else []))
+        n = rnd.choice([0, 1, 1, 1, 2, 3, 5, 54, 55, 56, 57, 60] + ([200, 255, 256, 257] if big else []))
         return {"s": rbytes(n)}
     k = rnd.choice([0, 1, 2, 3, 4, 6])
     return {"l": [rlp_random_tree(rnd, depth - 1, big and rnd.random() < 0.3) for _ in range(k)]}
@@ -165,14 +165,15 @@ def rlp_cases(seed, quick):
     trees = [
         {"s": []}, {"s": [0]}, {"s": [127]}, {"s": [128]}, {"s": [255]}, {"s": [1, 2]}, {"l": []},
         {"l": [{"l": []}]}, {"l": [{"s": []}]}, {"l": [{"s": [5]}]}, {"l": [{"s": [200]}]},
-        {"s": [7] * 55}, {"s": [7] * 56}, {"s": [200] * 255}, {"s": [9] * 256}, {"s": [9] * 1024},
-        {"l": [{"s": [1]}] * 55}, {"l": [{"s": [1]}] * 56}, {"l": [{"s": [1]}] * 300},
+        {"s": [7] * 55}, {"s": [7] * 56}, {"s": [200] * 255}, {"s": [9] * 256},
+        {"l": [{"s": [1]}] * 55}, {"l": [{"s": [1]}] * 56}, {"l": [{"s": [1]}] * 260},
         {"l": [{"s": [3] * 54}]}, {"l": [{"s": [3] * 55}]}, {"l": [{"s": [3] * 60}, {"l": [{"s": [4] * 60}]}]},
         {"l": [{"l": [{"l": [{"l": []}]}]}, {"s": [128]}]},
         # the set-theoretic encoding of three: [ [], [[]], [ [], [[]] ] ]
         {"l": [{"l": []}, {"l": [{"l": []}]}, {"l": [{"l": []}, {"l": [{"l": []}]}]}]},
     ]
     if not quick:
+        trees.append({"s": [9] * 1024})
         trees.append({"s": [rnd.randrange(256) for _ in range(65536)]})      # three length bytes
         trees.append({"l": [{"s": [1] * 40000}, {"s": [2] * 30000}]})
     n = 120 if quick else 1500
@@ -181,8 +182,9 @@ def rlp_cases(seed, quick):
     cases = []
     for t in trees:
         e, m = rlp_mutants(t, rnd)
-        if len(e) > 3000:
-            m = [x for x in m if len(x) <= 70000][:12]
+        if len(e) > 200:                       # long inputs are costly for TLC: keep a spread of 16 mutants
+            rnd.shuffle(m)
+            m = m[:16]
         cases.append({"t": t, "e": e, "m": m})
     return cases
 
@@ -205,14 +207,14 @@ def check_C46(ctx):
     write_ndjson(cf, cases)
     rc = ctx.tlc(RLP_FILES + [cf], "MC_RlpCases", "MC_RlpCases.cfg", workers=cores, tag="rlp-cases", timeout=1500)
     ninputs = sum(1 + len(c["m"]) for c in cases)
-    if rc.distinct < len(cases) or rc.distinct > ninputs:
+    if rc.distinct != ninputs + len(cases) + 1:      # one state per input + the fan-out states (start, one per case)
         raise Infra("case table has %d states for %d cases / %d inputs" % (rc.distinct, len(cases), ninputs))
-    # 2. the real decoders on every row (Go API on all rows, Cadence scripts on both engines on all rows in
-    #    the quick tier, on a hash-selected share of the large tables in the thorough tier)
-    modes = ["all", "all", "all"] if ctx.quick else ["8", "64", "all"]
+    # 2. the real decoders on every row (Go API on all rows, Cadence scripts on both engines on all generated
+    #    cases and on a hash-selected share of the enumerated tables: 1/2 and 1/4 quick, 1/8 and 1/64 thorough)
+    modes = ["2", "4", "all"] if ctx.quick else ["8", "64", "all"]
     summary, fails = run_driver(ctx, binary, "rlp",
                                 ["%s=%s" % (tlc_out(r), m) for r, m in zip((rb, ra, rc), modes)], "rlp", timeout=3000)
-    expected_rows = rb.distinct + ra.distinct + rc.distinct
+    expected_rows = rb.distinct + ra.distinct + ninputs
     if summary["rows"] != expected_rows:
         raise Infra("driver judged %d rows, TLC printed %d" % (summary["rows"], expected_rows))
     for f in fails:
@@ -243,7 +245,7 @@ def check_C46(ctx):
     ctx.add_sample({"extreme length prefix": "bf7fffffffffffffff", "spec": "payload-beyond-input, class edge63 (offset+length leaves int64)"})
     return ctx.finish({
         "states": rb.distinct + ra.distinct + rc.distinct,
-        "transitions": rb.generated + ra.generated + rc.generated,
+        "transitions": rb.generated + ra.generated + rc.generated - 3,
         "traces_validated_against_impl": summary["rows"],
         "evaluations": summary["go_evals"] + summary["cadence_evals"],
         "go_api_evaluations": summary["go_evals"], "cadence_script_evaluations": summary["cadence_evals"],
@@ -261,6 +263,354 @@ def check_C46(ctx):
                     "recursive decoding via the real API against the model's Deep()"])
 
 
+# ------------------------------------------------------------------------------------------
+# C47 revertibleRandom
+RND_FILES = ["text/Random.tla", "text/MC_Random.tla", "text/MC_Random_u8.cfg", "text/MC_Random_u16q.cfg",
+             "text/MC_Random_u16t.cfg", "text/MC_Random_file.cfg"]
+RND_WIDE = {"UInt32": 4, "UInt64": 8, "UInt128": 16, "UInt256": 32, "Word32": 4, "Word64": 8, "Word128": 16, "Word256": 32}
+RND_ALL = dict(RND_WIDE, UInt8=1, UInt16=2, Word8=1, Word16=2)
+
+
+def rnd_cases(seed, quick):
+    """(type, modulus, finite stream) cases for the wide types; the model computes the expected behaviour"""
+    rnd = random.Random(1000003 * seed + 47)
+    cases = []
+
+    def tobytes(n, size):
+        return list(n.to_bytes(size, "big"))
+
+    def add(ty, m, stream, nomod=False):
+        size = RND_ALL[ty]
+        cases.append({"ty": ty, "size": size, "M": tobytes(m, size), "stream": stream[:96], "nomod": nomod})
+
+    for ty, size in sorted(RND_WIDE.items()):
+        bits = 8 * size
+        ks = list(range(0, bits + 1))
+        if quick:
+            ks = sorted(set([0, 1, 2, 7, 8, 9, 15, 16, 17, bits // 2 - 1, bits // 2, bits // 2 + 1, bits - 9, bits - 8, bits - 7,
+                             bits - 1, bits] + rnd.sample(ks, 6)))
+        mods = set()
+        for k in ks:
+            for d in (-1, 0, 1):
+                m = (1 << k) + d
+                if 0 < m < (1 << bits):
+                    mods.add(m)
+        mods.add((1 << bits) - 1)
+        for _ in range(8 if quick else 60):
+            mods.add(rnd.randrange(1, 1 << rnd.randrange(1, bits + 1)))
+        for m in sorted(mods):
+            mx = m - 1
+            nb = (mx.bit_length() + 7) // 8
+            bl = mx.bit_length()
+            streams = []
+            if nb == 0:
+                streams = [[], [255, 255]]
+            else:
+                mxb = tobytes(mx, nb)
+                mb = tobytes(m & ((1 << (8 * nb)) - 1), nb)
+                high = [0xff] + mxb[1:] if nb else []                      # bits above the mask set, low bits = max
+                streams.append(mxb)                                         # exactly max: accepted
+                streams.append(mb + mxb)                                    # max+1 (rejected unless it wraps), then max
+                streams.append(high + [1] * nb)
+                streams.append([255] * nb * 3 + mxb)                        # three all-ones draws, then max
+                streams.append([255] * (nb * 2 + 1))                        # stream ends in the middle of a draw
+                streams.append([rnd.randrange(256) for _ in range(nb * 4)])
+                if not quick:
+                    streams.append([0x80] + [0] * (nb - 1) + [rnd.randrange(256) for _ in range(nb * 2)])
+                    streams.append([rnd.randrange(256) for _ in range(nb * 6)])
+                    streams.append([255] * 96)
+            for st in streams:
+                add(ty, m, st)
+        add(ty, 0, [1, 2, 3])                                               # zero modulo
+    for ty, size in sorted(RND_ALL.items()):
+        add(ty, 0, [7])
+        for st in ([], [255] * size, [1] + [0] * (size - 1), list(range(1, size + 1)), [rnd.randrange(256) for _ in range(size + 3)],
+                   [255] * (size - 1)):
+            add(ty, 1, st, nomod=True)
+    return cases
+
+
+def check_C47(ctx):
+    binary = ctx.build("text")
+    r8 = ctx.tlc(RND_FILES, "MC_Random", "MC_Random_u8.cfg", workers=ctx.cores, tag="rnd-u8", timeout=1500)
+    r16 = ctx.tlc(RND_FILES, "MC_Random", "MC_Random_u16q.cfg" if ctx.quick else "MC_Random_u16t.cfg", workers=ctx.cores,
+                  tag="rnd-u16", timeout=2400)
+    cases = rnd_cases(ctx.seed, ctx.quick)
+    cf = os.path.join(ctx.work, "cases.ndjson")
+    write_ndjson(cf, cases)
+    rf = ctx.tlc(RND_FILES + [cf], "MC_Random", "MC_Random_file.cfg", workers=ctx.cores, tag="rnd-wide", timeout=1500)
+    if rf.distinct != 2 * len(cases) + 1:
+        raise Infra("wide-type table has %d states for %d cases" % (rf.distinct, len(cases)))
+    summary, fails = run_driver(ctx, binary, "random", [tlc_out(r8), tlc_out(r16), tlc_out(rf)], "random", timeout=3000)
+    for f in fails:
+        ctx.report({"ty": f["ty"], "engine": f["engine"], "dev": f["dev"], "nomod": f["nomod"]},
+                   "revertibleRandom<%s>(%s) on source 0x%s (%s): %s: %s"
+                   % (f["ty"], "" if f["nomod"] else "modulo: " + f["modulo"], f["stream"], f["engine"], f["dev"], f["msg"]),
+                   {"type": f["ty"], "modulo": f["modulo"], "stream_hex": f["stream"], "engine": f["engine"], "observed": f["msg"]})
+    # negative control: corrupted behaviours (result bit, one more request, another request size) must be rejected
+    rows = table_rows(rf)
+    ok_rows = [r for r in rows if r[3] == "ok" and not r[6] and len(r[4]) >= 2 and r[4][0] > 0]
+    if not ok_rows:
+        raise Infra("negative control: no suitable rows")
+    base = ok_rows[len(ok_rows) // 2]
+    b1 = json.loads(json.dumps(base)); b1[5][-1] ^= 1
+    b2 = json.loads(json.dumps(base)); b2[4] = b2[4][:-1]
+    b3 = json.loads(json.dumps(base)); b3[4] = [x + 1 for x in b3[4]]
+    nf = os.path.join(ctx.work, "negctl.ndjson")
+    write_ndjson(nf, [b1, b2, b3])
+    _, nfails = run_driver(ctx, binary, "random", [nf], "random-negctl")
+    devs = {f["dev"] for f in nfails}
+    if not {"result", "draws", "draw-size"} <= devs:
+        raise Infra("negative control failed: corrupted behaviours not all rejected: %s" % sorted(devs))
+    nmod8 = 255
+    n16 = (r16.distinct - 1) // 65537
+    ctx.add_sample({"type": base[0], "modulo_bytes": base[1], "source_bytes": base[2], "requests": base[4], "result_bytes": base[5]})
+    r8rows = table_rows(r8)
+    ctx.add_sample({"row": r8rows[len(r8rows) // 2]})
+    ctx.add_sample({"row": r8rows[7]})
+    return ctx.finish({
+        "states": r8.distinct + r16.distinct + rf.distinct,
+        "transitions": r8.generated + r16.generated + rf.generated - 3,
+        "traces_validated_against_impl": summary["calls_checked"],
+        "evaluations": summary["executions"],
+        "scripts": summary["scripts"],
+        "distinct_nontrivial": summary["nontrivial"],
+        "rule": "distinct (type, modulus, consumed source bytes) cases; non-trivial = a draw was rejected or the accepted draw had bits above "
+                "the mask (masking or rejection decided the outcome); each case is one revertibleRandom call in a real script, both engines",
+        "distinct_cases": summary["distinct"],
+        "rejected_draws_replayed": summary["rejected_draws"],
+        "uniformity_proved_on_model": "8-bit: all %d moduli, histogram of all 256 first draws; 16-bit: %d boundary moduli, low-bits "
+                                      "identity on all 65536 draws + counting lemma" % (nmod8, n16),
+        "wide_cases": len(cases),
+        "negative_control": "3 corrupted behaviours (result bit, dropped request, request size) all rejected",
+        "exhaustive": True,
+    }, assumptions=["the random source is finite: the scripted bytes are followed by zeros (an all-0xff source never terminates; excluded by the host contract)",
+                    "uniformity is a statement about the model (counting); the code is bound to the model by equal request sizes, accept/reject decisions and results",
+                    "Word8/Word16 are driven with the rows computed for UInt8/UInt16 (the model depends on the size only)"])
+
+
+# ------------------------------------------------------------------------------------------
+# C35 LEB128, instruction codec, compile determinism
+LEB_FILES = ["text/Leb128.tla", "text/MC_Leb128.tla", "text/MC_Leb128_native_q.cfg", "text/MC_Leb128_native_t.cfg",
+             "text/MC_Leb128_big.cfg", "text/Digest.tla", "text/Digest.cfg"]
+
+CORPUS_FIXED = [
+    ("loops", """
+access(all) fun sum(_ n: Int): Int { var i = 0; var s = 0; while i < n { if i % 2 == 0 { s = s + i } else { s = s - 1 }; i = i + 1 }; return s }
+access(all) fun find(_ xs: [Int], _ x: Int): Int? { for i, v in xs { if v == x { return i }; if v > 100 { break }; continue }; return nil }
+access(all) fun main(): Int { return sum(10) + (find([1, 2, 3], 2) ?? -1) }
+"""),
+    ("closures", """
+access(all) fun counter(): fun(): Int { var c = 0; return fun (): Int { c = c + 1; return c } }
+access(all) fun compose(_ f: fun(Int): Int, _ g: fun(Int): Int): fun(Int): Int { return fun (x: Int): Int { return f(g(x)) } }
+access(all) fun main(): Int { let c = counter(); c(); let h = compose(fun (x: Int): Int { return x * 2 }, fun (x: Int): Int { return x + 1 }); return h(c()) }
+"""),
+    ("composites", """
+access(all) struct interface Shape { access(all) fun area(): Int; access(all) fun describe(): String { return "shape ".concat(self.area().toString()) } }
+access(all) struct Sq: Shape { access(all) let s: Int; init(_ s: Int) { self.s = s } access(all) fun area(): Int { return self.s * self.s } }
+access(all) struct Rect: Shape { access(all) let w: Int; access(all) let h: Int; init(w: Int, h: Int) { self.w = w; self.h = h }
+  access(all) fun area(): Int { return self.w * self.h } access(all) fun describe(): String { return "rect" } }
+access(all) enum Color: UInt8 { access(all) case red; access(all) case green; access(all) case blue }
+access(all) fun main(): String { let shapes: [{Shape}] = [Sq(2), Rect(w: 2, h: 3)]; var out = ""; for s in shapes { out = out.concat(s.describe()) }
+  switch Color.green { case Color.red: out = out.concat("r") case Color.green: out = out.concat("g") default: out = out.concat("?") }; return out }
+"""),
+    ("resources", """
+access(all) resource R { access(all) var v: Int; init(_ v: Int) { self.v = v } access(all) fun bump() { self.v = self.v + 1 } }
+access(all) resource Box { access(all) var items: @[R]; access(all) var named: @{String: R}; init() { self.items <- []; self.named <- {} }
+  access(all) fun add(_ r: @R) { self.items.append(<- r) } access(all) fun put(_ k: String, _ r: @R) { let old <- self.named[k] <- r; destroy old }
+  access(all) fun take(): @R { return <- self.items.removeLast() } }
+access(all) fun main(): Int { let b <- create Box(); b.add(<- create R(1)); b.put("a", <- create R(2)); let r <- b.take(); r.bump(); let v = r.v
+  let ref = &b.named["a"] as &R?; let w = ref?.v ?? 0; destroy r; destroy b; return v + w }
+"""),
+    ("conditions", """
+access(all) struct interface Acc { access(all) var bal: Int
+  access(all) fun withdraw(_ n: Int): Int { pre { n > 0: "positive"; n <= self.bal: "enough" } post { self.bal == before(self.bal) - n: "debited"; result == n } } }
+access(all) struct A: Acc { access(all) var bal: Int; init() { self.bal = 10 } access(all) fun withdraw(_ n: Int): Int { self.bal = self.bal - n; return n } }
+access(all) fun f(_ x: Int): Int { pre { x >= 0 } post { result >= x } return x + 1 }
+access(all) fun main(): Int { var a = A(); return a.withdraw(3) + f(2) }
+"""),
+    ("optionals-casts", """
+access(all) struct P { access(all) let q: Q?; init(_ q: Q?) { self.q = q } }
+access(all) struct Q { access(all) let n: Int; init(_ n: Int) { self.n = n } access(all) fun twice(): Int { return self.n * 2 } }
+access(all) fun main(): Int { let p: P? = P(Q(4)); let a = p?.q?.n ?? 0; let b = p?.q?.twice() ?? 0; let any: AnyStruct = a
+  let c = any as? Int ?? 0; let d = any as! Int; let e = (any as? String) == nil ? 1 : 2; if let q = p?.q { return a + b + c + d + e + q!.n }; return 0 }
+"""),
+    ("strings-collections", """
+access(all) fun main(): String { let xs = [3, 1, 2]; let m: {String: Int} = {"a": 1, "b": 2}; var s = ""
+  for k in m.keys { s = s.concat(k) }; let ys = xs.map(fun (x: Int): Int { return x * x }).filter(view fun (x: Int): Bool { return x > 1 })
+  let t = "n=\\(ys.length) \\u{1F600} \\n"; let u: UFix64 = 1.5; let w: Fix64 = -2.25; let big: UInt256 = 0xffff_ffff_ffff_ffff_ffff
+  let addr: Address = 0x1; let path = /storage/foo; return s.concat(t).concat(u.toString()).concat(w.toString()).concat(big.toString()).concat(addr.toString()).concat(path.toString()) }
+"""),
+    ("entitlements-attachments", """
+access(all) entitlement E
+access(all) entitlement F
+access(all) entitlement mapping M { E -> F }
+access(all) struct Inner { access(F) fun secret(): Int { return 7 } access(all) fun open(): Int { return 1 } }
+access(all) struct Outer { access(mapping M) let inner: Inner; init() { self.inner = Inner() } access(E) fun guarded(): Int { return 2 } }
+access(all) resource Base { access(all) let id: Int; init() { self.id = 5 } }
+access(all) attachment Att for Base { access(all) fun baseId(): Int { return base.id } }
+access(all) fun main(): Int { let o = Outer(); let r = &o as auth(E) &Outer; let x = r.inner.secret() + r.guarded()
+  let b <- attach Att() to <- create Base(); let y = b[Att]?.baseId() ?? 0; destroy b; return x + y }
+"""),
+    ("events-globals", """
+access(all) event Ev(a: Int, b: String)
+access(all) let G: Int = 42
+access(all) var H: [Int] = [1, 2, 3]
+access(all) fun emitIt(_ n: Int) { emit Ev(a: n, b: n.toString()) }
+access(all) fun main(): Int { emitIt(G); H.append(4); return H.length + G }
+"""),
+    ("contract", """
+access(all) contract C { access(all) var total: Int; access(all) struct S { access(all) let v: Int; init(_ v: Int) { self.v = v } }
+  access(all) resource R { access(all) let s: S; init(_ v: Int) { self.s = S(v) } }
+  access(all) fun mk(_ v: Int): @R { self.total = self.total + v; return <- create R(v) } access(all) view fun get(): Int { return self.total }
+  init() { self.total = 0 } }
+"""),
+    ("transaction", """
+transaction(n: Int) { let x: Int
+  prepare(acct: auth(Storage) &Account) { self.x = n + 1; acct.storage.save(self.x, to: /storage/x) }
+  pre { n > 0 } execute { let y = self.x + 1 } post { self.x > n } }
+"""),
+]
+
+
+def gen_program(rnd, ndecl):
+    """a type-correct program with many top-level declarations of different kinds in random order"""
+    decls = []
+    kinds = ["struct", "resource", "iface", "enum", "fun", "funloop", "closure", "global", "event", "entitlement", "attachment"]
+    for i in range(ndecl):
+        k = rnd.choice(kinds)
+        n = "%s%d" % (k[:2].upper(), i)
+        c = rnd.randrange(1, 100000)
+        if k == "struct":
+            fs = ["access(all) fun m%d(_ x: Int): Int { return x %s %d }" % (j, rnd.choice("+-*"), rnd.randrange(1, 9)) for j in range(rnd.randrange(1, 5))]
+            rnd.shuffle(fs)
+            decls.append("access(all) struct %s { access(all) let a: Int; access(all) var b: String; init() { self.a = %d; self.b = \"%s\" } %s }" % (n, c, n, " ".join(fs)))
+        elif k == "resource":
+            decls.append("access(all) resource %s { access(all) var v: Int; init() { self.v = %d } access(all) fun inc(): Int { self.v = self.v + 1; return self.v } }\n"
+                         "access(all) fun use%s(): Int { let r <- create %s(); let x = r.inc(); destroy r; return x }" % (n, c, n, n))
+        elif k == "iface":
+            decls.append("access(all) struct interface %s { access(all) fun f(_ x: Int): Int { pre { x > %d } post { result >= 0 } } access(all) fun g(): Int { return %d } }\n"
+                         "access(all) struct Impl%s: %s { access(all) fun f(_ x: Int): Int { return x } }" % (n, c % 7, c, n, n))
+        elif k == "enum":
+            cases = " ".join("access(all) case c%d;" % j for j in range(rnd.randrange(1, 6)))
+            decls.append("access(all) enum %s: UInt8 { %s }" % (n, cases))
+        elif k == "fun":
+            decls.append("access(all) fun f%s(_ x: Int, y: Int): Int { if x > y { return x - y } else if x == y { return %d }; return y - x }" % (n, c))
+        elif k == "funloop":
+            decls.append("access(all) fun g%s(_ n: Int): [Int] { var out: [Int] = []; var i = 0; while i < n { if i == %d { i = i + 2; continue }; out.append(i * %d); i = i + 1 }; for v in out { if v > %d { break } }; return out }" % (n, c % 5, c % 11, c))
+        elif k == "closure":
+            decls.append("access(all) fun h%s(): fun(Int): Int { var acc = %d; let k = \"%s\"; return fun (d: Int): Int { acc = acc + d + k.length; return acc } }" % (n, c, n))
+        elif k == "global":
+            decls.append("access(all) let v%s: {String: Int} = {\"%s\": %d, \"z\": %d}" % (n, n, c, c + 1))
+        elif k == "event":
+            decls.append("access(all) event e%s(x: Int, y: String)\naccess(all) fun emit%s() { emit e%s(x: %d, y: \"%s\") }" % (n, n, n, c, n))
+        elif k == "entitlement":
+            decls.append("access(all) entitlement X%s\naccess(all) struct G%s { access(X%s) fun p(): Int { return %d } access(all) fun q(): Int { return %d } }" % (n, n, n, c, c + 1))
+        elif k == "attachment":
+            decls.append("access(all) resource B%s { access(all) let id: Int; init() { self.id = %d } }\naccess(all) attachment A%s for B%s { access(all) fun bid(): Int { return base.id + %d } }" % (n, c, n, n, c % 13))
+    rnd.shuffle(decls)
+    return "\n".join(decls) + "\n"
+
+
+def compile_corpus(seed, quick):
+    rnd = random.Random(1000003 * seed + 35)
+    corpus = [{"id": "fixed-" + n, "code": c} for n, c in CORPUS_FIXED]
+    for i in range(30 if quick else 250):
+        corpus.append({"id": "gen-%d" % i, "code": gen_program(rnd, rnd.choice([5, 12, 25, 40]))})
+    return corpus
+
+
+def check_C35(ctx):
+    binary = ctx.build("text")
+    # --- LEB128: model (laws + table) and table conformance
+    rn = ctx.tlc(LEB_FILES, "MC_Leb128", "MC_Leb128_native_q.cfg" if ctx.quick else "MC_Leb128_native_t.cfg",
+                 workers=ctx.cores, tag="leb-native", timeout=2400)
+    rnd = random.Random(1000003 * ctx.seed + 351)
+    vals = []
+    for _ in range(300 if ctx.quick else 5000):
+        v = rnd.getrandbits(rnd.randrange(1, 65))
+        vals.append({"neg": rnd.random() < 0.5, "mag": list(v.to_bytes(8, "big"))})
+    cf = os.path.join(ctx.work, "cases.ndjson")
+    write_ndjson(cf, vals)
+    rb = ctx.tlc(LEB_FILES + [cf], "MC_Leb128", "MC_Leb128_big.cfg", workers=ctx.cores, tag="leb-big", timeout=1500)
+    ls, lfails = run_driver(ctx, binary, "leb", [tlc_out(rn), tlc_out(rb)], "leb")
+    for f in lfails:
+        ctx.report({"part": "leb128", "fn": f["fn"], "dev": f["dev"]},
+                   "leb128.%s(%s): %s: %s" % (f["fn"], f["value"], f["dev"], f["msg"]), {"fn": f["fn"], "value": f["value"], "observed": f["msg"]})
+    # negative control on the table
+    brow = next(r for r in table_rows(rb) if r[0] == "B" and r[3] != 0 and len(r[3]) >= 3)
+    c1 = json.loads(json.dumps(brow)); c1[3][1] ^= 1
+    c2 = json.loads(json.dumps(brow)); c2[4] = c2[4] + [0]; c2[4][-2] |= 128
+    nf = os.path.join(ctx.work, "negctl.ndjson")
+    write_ndjson(nf, [c1, c2])
+    _, nfails = run_driver(ctx, binary, "leb", [nf], "leb-negctl")
+    if not ({f["fn"] for f in nfails} >= {"AppendUint64", "AppendInt64"}):
+        raise Infra("negative control failed: corrupted LEB128 rows not rejected: %s" % nfails[:3])
+    # --- instruction codec
+    corpus = compile_corpus(ctx.seed, ctx.quick)
+    corpf = os.path.join(ctx.work, "corpus.ndjson")
+    write_ndjson(corpf, corpus)
+    isum, ifails = run_driver(ctx, binary, "instr", [corpf], "instr")
+    for f in ifails:
+        ctx.report({"part": "instruction-codec", "dev": f["dev"], "opcode": f["opcode"], "src": f["src"]},
+                   "instruction codec (%s, %s): %s: %s" % (f["opcode"], f["src"], f["dev"], f["msg"]), {"opcode": f["opcode"], "observed": f["msg"]})
+    # --- compile determinism: rounds in one process x fresh processes with different scheduler settings
+    trace = []
+    procs = [{"GOMAXPROCS": "1"}, {"GOMAXPROCS": "4"}, {"GOMAXPROCS": "16", "GOGC": "20"}] + ([] if ctx.quick else [{"GOMAXPROCS": "2", "GOGC": "off"}, {}])
+    rounds = 3 if ctx.quick else 5
+    csum = None
+    for pi, env in enumerate(procs):
+        csum, crows = run_driver(ctx, binary, "compile", [corpf, str(rounds)], "compile-%d" % pi, env=env)
+        for r in crows:
+            for k, d in enumerate(r["digests"]):
+                trace.append({"prog": r["id"], "digest": d, "parts": r["parts"][k], "proc": "p%d-%d" % (pi, r["pid"]), "round": k})
+    if os.environ.get("VERIF_NEGCTL_C35"):                    # manual negative control: corrupt one event
+        trace[len(trace) // 2]["digest"] = "0" * 64
+    tf = os.path.join(ctx.work, "trace.ndjson")
+    write_ndjson(tf, trace)
+    rd = ctx.tlc(LEB_FILES + [tf], "Digest", "Digest.cfg", workers=1, tag="digest", timeout=600, count=False)
+    verdict = [x for x in rd.json_lines() if isinstance(x, dict) and "bad" in x]
+    if not verdict or verdict[0]["events"] != len(trace):
+        raise Infra("Digest.tla did not judge the trace")
+    for i in verdict[0]["bad"]:
+        e = trace[i - 1]
+        first = next(x for x in trace if x["prog"] == e["prog"])
+        diff = sorted(k for k in e["parts"] if e["parts"][k] != first["parts"][k])
+        ctx.report({"part": "compile-determinism", "differs": ",".join(diff)},
+                   "program %s: compilation in %s round %d gives digest %s, first compilation %s (differs in: %s)"
+                   % (e["prog"], e["proc"], e["round"], e["digest"][:16], first["digest"][:16], ",".join(diff)),
+                   {"program": next(c["code"] for c in corpus if c["id"] == e["prog"]), "event": e, "first": first})
+    # built-in negative control of the relation: one corrupted event must be in Bad
+    ctrace = json.loads(json.dumps(trace)); ctrace[len(ctrace) // 2]["digest"] = "f" * 64
+    write_ndjson(tf, ctrace)
+    rdc = ctx.tlc(LEB_FILES + [tf], "Digest", "Digest.cfg", workers=1, tag="digest-negctl", timeout=600, count=False)
+    vc = [x for x in rdc.json_lines() if isinstance(x, dict) and "bad" in x]
+    if not vc or (len(ctrace) // 2 + 1) not in vc[0]["bad"]:
+        raise Infra("negative control failed: corrupted digest event not rejected by Digest.tla")
+    ctx.add_sample({"leb128 row": brow})
+    ctx.add_sample({"program": corpus[len(CORPUS_FIXED)]["code"][:400], "digest": trace[len(CORPUS_FIXED) * rounds]["digest"]})
+    ctx.add_sample({"fixed program": CORPUS_FIXED[3][1][:300]})
+    return ctx.finish({
+        "states": rn.distinct + rb.distinct, "transitions": rn.generated + rb.generated - 2,
+        "traces_validated_against_impl": ls["values"] + len(trace),
+        "evaluations": ls["evaluations"] + ls["sweep_evaluations"] + isum["corpus_instructions"] + isum["generated_instructions"] + len(trace),
+        "leb128_values_in_table": ls["values"], "leb128_table_evaluations": ls["evaluations"], "leb128_sweep_evaluations": ls["sweep_evaluations"],
+        "distinct_nontrivial": ls["nontrivial"] + isum["distinct_instructions"],
+        "rule": "LEB128: table values whose encoding has more than one byte (continuation logic exercised), each a distinct value; "
+                "instructions: distinct (opcode, operands) values round-tripped; compile events are counted separately",
+        "leb128_length_classes": ls["length_classes"],
+        "instructions_from_corpus": isum["corpus_instructions"], "instructions_generated": isum["generated_instructions"],
+        "opcodes_covered": isum["opcodes"], "decodable_opcodes": isum["decodable_opcodes"],
+        "programs": len(corpus), "compilations": len(trace), "processes": len(procs), "rounds_per_process": rounds,
+        "functions_compiled": csum["functions"], "instructions_compiled": csum["instructions"],
+        "negative_control": "2 corrupted LEB128 rows rejected by the driver; 1 corrupted digest event rejected by Digest.tla",
+        "exhaustive": True,
+    }, assumptions=["TLA+ decides the LEB128 part (laws on the model + byte-exact table) and the functional relation on the digest trace; the instruction "
+                    "codec round trip and the choice of corpus programs are exploration: there is no independent model of the instruction set or the compiler",
+                    "compile determinism is observed over the listed processes/rounds only; the corpus is hand-written programs plus seeded generated "
+                    "programs with up to 40 shuffled top-level declarations"])
+
+
 META = {
     "C46": {
         "level_text": "TLC evaluates the RLP decoder specification (Rlp.tla: encoder = definition of canonical, DecodeString, one-level DecodeList, "
@@ -275,5 +625,34 @@ META = {
         "technique": "TLA+ function specification model-checked with TLC (laws as invariants), TLC-evaluated table compared with the real functions (E4)",
         "design_ref": "DESIGN.md section 5 C46, Appendix A.5",
         "engine": "E4 table conformance",
+    },
+    "C47": {
+        "level_text": "Random.tla specifies rejection sampling on big-endian byte sequences (exact for all widths) as a state machine with one "
+                      "action per request to the source. TLC explores one state per case: every UInt8 modulus 0..255 x every first byte x two "
+                      "second bytes, boundary UInt16 moduli x all 65536 first draws, and seeded boundary/adversarial cases for the 32..256-bit "
+                      "types, the no-modulo path and zero moduli; invariants: result < m, uniform request size, and uniformity by counting "
+                      "(8-bit: equal non-zero histogram over all 256 draws for every m; 16-bit: low-bits identity for all draws + counting lemma). "
+                      "Every case is replayed through real scripts on interpreter and VM with a scripted finite source; request sizes, number of "
+                      "draws and the result must equal the model; zero modulo must be the user error without touching the source.",
+        "level_note": "Trusted: TLC, the row printer, the Go replay loop, host.World's random callback. Uniformity for widths above 16 bits is not "
+                      "enumerated; it follows from the same width-independent definitions that are checked exhaustively at 8 bits.",
+        "technique": "TLA+ state machine model-checked with TLC; its behaviours replayed into the real runtime (E2)",
+        "design_ref": "DESIGN.md section 5 C47",
+        "engine": "E2 replay",
+    },
+    "C35": {
+        "level_text": "Leb128.tla specifies unsigned/signed LEB128 twice (native integers and exact sign+byte-sequence numbers) and TLC checks on every "
+                      "value n and -n below 2^16 (2^21 thorough): decode(encode(n) ++ garbage) = (n, length), the closed-form length, minimality, and "
+                      "agreement of the two formulations; on 2^k+d (k <= 64, |d| <= 2, both signs) and seeded random 64-bit values the big-number laws. "
+                      "TLC prints the expected bytes; bbq/leb128 Append*/Read* (32 and 64 bit) must reproduce bytes, value and length. Exploration part: "
+                      "every instruction of the compiled corpus and generated instructions of every opcode with operands at width boundaries "
+                      "round-trip through Encode/DecodeInstruction; each corpus program is compiled repeatedly in several fresh processes and "
+                      "Digest.tla checks that the digest (code, constants, function order, types, globals) is a function of the program.",
+        "level_note": "Model checking applies to LEB128 only. The instruction codec and compile determinism have no independent model: they are "
+                      "relational exploration (round trip, functional digest) over a corpus; a non-determinism that needs a program shape outside the "
+                      "corpus is not found. Trusted: TLC, JSON printers, Go comparison loops, the digest function.",
+        "technique": "TLA+ function specification model-checked with TLC + table conformance (E4); relational trace validation of digests (E3); round-trip exploration",
+        "design_ref": "DESIGN.md section 5 C35",
+        "engine": "E4 table + E3 relational",
     },
 }
